@@ -92,8 +92,13 @@ struct C07 : Scenario {
 			}
 		}
 		p.seti("euid", rng.chance(1, 2) ? 0 : 1000);
-		static const char *tq[] = {"t", "tq0", "tq1", "xf", "xq0", "xq1", "tv", "ef"};
-		p.sets("clicmd", tq[rng.below(8)]);
+		static const char *tq[] = {"t", "tq0", "tq1", "xf", "xq0", "xq1", "tv", "ef", "xq2", "xq", "eq2", "tq2", "tq", "xfq2"};
+		p.sets("clicmd", tq[rng.below(14)]);
+		if (fam == "rewrite" && rng.chance(1, 3)) {
+			// a well-formed header naming a method for which there is no decoder: nothing is produced, so it cannot be good
+			static const char *um[] = {"-lh2-", "-lh3-", "-lzz-", "-pm3-", "-lh8-"};
+			for (auto &m : p.members) if (m.kind == 'f' && rng.chance(1, 2) && !member_plain(m).empty()) { Bytes pl = member_plain(m); m.plain = pl; m.data = member_data(m); m.payload.clear(); m.cut = -1; m.method = um[rng.below(5)]; }
+		}
 		if (fam == "write_fault") {
 			static const char *xq[] = {"xf", "xq0", "xq1", "ef"};
 			p.sets("clicmd", xq[rng.below(4)]);
@@ -155,14 +160,20 @@ struct C07 : Scenario {
 		CliResult r = env.run(q, arch);
 		if (r.budget) { res.fail("C07.budget", "budget:cli", what + ": the tool did not finish within the step budget"); return false; }
 		bool extract = cmd[0] == 'x' || cmd[0] == 'e';
-		int quiet = cmd.find("q0") != std::string::npos ? 0 : cmd.find("q1") != std::string::npos ? 1 : 0;
+		int quiet = 0;
+		{ size_t q = cmd.find('q'); if (q != std::string::npos) quiet = (q + 1 < cmd.size() && cmd[q + 1] >= '0' && cmd[q + 1] <= '9') ? cmd[q + 1] - '0' : 2; }
 		// expected per-member outcome lines, in order
 		std::vector<int> exp;
 		bool any_bad = false;
-		for (auto &j : js) {
+		std::vector<size_t> exp_member;
+		for (size_t ji = 0; ji < js.size(); ++ji) {
+			const MemberJudgement &j = js[ji];
 			if (j.h.method == "-lhd-" || j.h.os == 'm') continue;
-			exp.push_back(j.expect_good ? 1 : 0);
 			if (!j.expect_good) any_bad = true;
+			// a member whose method has no decoder never starts decoding: the tool prints no outcome line for it
+			if (!supported_method(j.h.method)) continue;
+			exp.push_back(j.expect_good ? 1 : 0);
+			exp_member.push_back(ji);
 		}
 		// scan stdout for outcome words
 		std::vector<int> got;
@@ -180,7 +191,7 @@ struct C07 : Scenario {
 			size_t gi = 0;
 			for (size_t i = 0; i < exp.size() && gi < got.size(); ++i, ++gi) {
 				if (got[gi] == 1 && exp[i] == 0) { res.fail("C07.good_but_mismatch", std::string("cli:line:") + (extract ? "x" : "t"), ctx + strf(": member %zu reported '%s' but its bytes do not match the recorded length/CRC\n%s", i, good_w + 3, printable(r.out).c_str())); return false; }
-				if (!extract && got[gi] == 0 && exp[i] == 1 && supported_method(js[i].h.method)) { res.fail("C07.bad_but_match", "cli:line:false_negative", ctx + strf(": member %zu reported '%s' although its bytes match", i, bad_w + 3)); return false; }
+				if (!extract && got[gi] == 0 && exp[i] == 1) { res.fail("C07.bad_but_match", "cli:line:false_negative", ctx + strf(": member %zu reported '%s' although its bytes match", i, bad_w + 3)); return false; }
 			}
 		}
 		if (any_bad && r.status == 0 && !r.exited) { res.fail("C07.exit_status", std::string("cli:exit:") + (extract ? "x" : "t"), ctx + ": exit status 0 although a selected member is bad\n" + printable(r.out)); return false; }
